@@ -36,7 +36,7 @@ var profC10 = ConcProfile{
 		Pop: 15, Prio: true, Text: 1, Rm: 25, AbortW: 2, Ext: 10,
 		SyncDecors: 1, PlainDecors: 1, Wraps: true, Fillers: []string{"tag", "bar"}, EwmaPct: 20, Listeners: 10, BuiltinPct: 50,
 	},
-	MaxBlocks: 8, MaxBlockOps: 16, Pars: 2, CancelIn: 0, PerturbMax: 2, HoldPct: 50, SyncPct: 30,
+	MaxBlocks: 8, MaxBlockOps: 16, Pars: 2, CancelIn: 0, PerturbMax: 2, HoldPct: 50, SyncPct: 30, WriteBoost: 8,
 }
 
 func genC10(t *rapid.T) interface{} {
